@@ -122,6 +122,13 @@ def scenarios(rng: random.Random, tier: str):
         for wait in ("adv 11", "adv 11 | rx 0 " + nodegen.dwa(n(), n()), "adv 11 | rx 1 " + nodegen.dwa(n(), n(), "peer2.x")):
             out.append(two + " | start | acc | rx 0 " + nodegen.cer("peer1.x", "4+3", n(), n(), extra=",acct=3") + " | acc | rx 1 " +
                        nodegen.cer("peer2.x", "4+3", n(), n(), extra=",acct=3") + f" | {wait} | {closer} | tick")
+    # a DWR of ours is unanswered, the peer sends its DPR, another connection goes away, then the late DWA arrives
+    for other_end in ("eof 1", "rerr 1 hard", "rx 1 " + nodegen.dpr(n(), n(), "peer2.x") + " | eof 1"):
+        out.append(two + " | start | acc | rx 0 " + nodegen.cer("peer1.x", "4+3", n(), n(), extra=",acct=3") + " | acc | rx 1 " +
+                   nodegen.cer("peer2.x", "4+3", n(), n(), extra=",acct=3") + " | adv 11 | rx 0 " + nodegen.dpr(n(), n()) +
+                   f" | {other_end} | rx 0 " + nodegen.dwa(n(), n()) + " | tick | eof 0 | tick")
+        out.append(two + " | start | acc | rx 0 " + nodegen.cer("peer1.x", "4+3", n(), n(), extra=",acct=3") + " | acc | adv 11 | rx 0 " +
+                   nodegen.dpr(n(), n()) + " | eof 1 | rx 0 " + nodegen.dwa(n(), n()) + " | tick")
     alphabet = lambda c: [  # noqa: E731
         "acc", f"rx {c} " + nodegen.cer(rng.choice(["peer1.x", "peer2.x", "Peer1.X", "PEER2.x"]), rng.choice(["4", "99", "4+3"]), n(), n()),
         f"rx {c} " + nodegen.cer("stranger.x", "4", n(), n()), f"rx {c} " + nodegen.cea(2001, rng.choice(["peer1.x", "peer2.x"]), n(), n()),
